@@ -1464,6 +1464,9 @@ namespace bloch::runtime {
                 m_inStaticContext = false;
                 m_inConstructor = false;
                 m_inDestructor = true;
+                // a destructor run while the caller is unwinding from a 'return' still executes
+                // its whole body
+                m_hasReturn = false;
                 beginFrame();
                 Value thisVal;
                 thisVal.type = Value::Type::Object;
